@@ -6,6 +6,7 @@ whole histories (docs / steps / maps alignment) and of inverted maps with lean/P
 Search: replay of recorded steps from `before`; alignment after rejected operations; inverted steps
 in reverse order restore `before`; exact undo of single replace / attr / doc-attr / node-mark steps.
 """
+from prosemirror.model import Fragment, Slice
 from prosemirror.transform import (
     AddNodeMarkStep,
     AttrStep,
@@ -195,11 +196,35 @@ def run(ctx):
                 nxt = tr.docs[k + 1] if k + 1 < len(tr.docs) else tr.doc
                 undo_single(ctx, info, tr.docs[k], s, nxt, reqs, metas, "history")
 
+    def bridge_steps(d):
+        """aimed: merge two differently typed siblings through an open node of a third type that joins onto both"""
+        out = []
+        kids = [(d.child(i), i) for i in range(d.child_count)]
+        pos = 0
+        starts = []
+        for n, i in kids:
+            starts.append(pos)
+            pos += n.node_size
+        for (x, i), (y, j) in zip(kids, kids[1:]):
+            for ty in d.type.schema.nodes.values():
+                if ty.is_leaf or ty.is_text or ty.inline_content:
+                    continue
+                if not (ty.compatible_content(x.type) and ty.compatible_content(y.type)):
+                    continue
+                f = starts[i] + x.node_size - 1                         # end of x's content
+                inner = [0]
+                for k in range(y.child_count):
+                    inner.append(inner[-1] + y.child(k).node_size)
+                t = starts[j] + 1 + rng.choice(inner)                    # a child boundary inside y
+                out.append(ReplaceStep(f, t, Slice(Fragment.from_(ty.create()), 1, 1)))
+        return out
+
+    all_s = fam + schemas.extra()
     for si in range(n_s):
         if len(reqs) >= 15000:
             flush()     # keep memory bounded in long runs
-        bundled = si < len(fam) or rng.random() < 0.6
-        info = fam[si % len(fam)] if bundled else schemas.random_schema(rng)
+        bundled = si < len(all_s) or rng.random() < 0.6
+        info = all_s[si % len(all_s)] if bundled else schemas.random_schema(rng)
         schema = info.schema
         ctx.driver.add_schema(info)
         docs = [gen.gen_doc(rng, schema, budget=rng.choice([6, 12, 25])) for _ in range(ctx.budget(5, 10))]
@@ -214,7 +239,13 @@ def run(ctx):
                 st, res = outcome(lambda: step.apply(d))
                 if st == "ok" and res.doc is not None:
                     undo_single(ctx, info, d, step, res.doc, reqs, metas, "primitive")
-            if not bundled:
+            if info.name == "bridge":
+                for step in bridge_steps(d):
+                    st, res = outcome(lambda: step.apply(d))
+                    ctx.count("bridge-step:" + ("applies" if st == "ok" and res.doc is not None else "refused"))
+                    if st == "ok" and res.doc is not None:
+                        undo_single(ctx, info, d, step, res.doc, reqs, metas, "bridge")
+            if not bundled or info.name == "bridge":
                 continue
             # ---- histories over the bundled-family schemas
             history(info, d, docs, None, rng.randint(1, 12))
